@@ -89,8 +89,7 @@ func down(v ssa.Value) (call *ssa.Call, inner ssa.Value, ok bool) {
 	var found ssa.Value
 	n := 0
 	for ret, vs := range ReturnedValues(g) {
-		res := g.Signature.Results()
-		if isErrorType(res.At(res.Len()-1).Type()) && res.Len() > 1 && !nilErrorReturn(ret) {
+		if g.Signature.Results().Len() > 1 && rejectReturn(ret) {
 			continue
 		}
 		if idx < len(vs) {
@@ -184,4 +183,44 @@ func (r *RT) onCycle(in ssa.Instruction) bool {
 		fromCycleCache[r.Pkg] = m
 	}
 	return m[in.Parent()]
+}
+
+// argThrough: a value seen inside a helper of the anchored function's cone
+// that is a parameter of that helper stands for the argument it is handed —
+// when the cone calls the helper from exactly one place (writeMessage(…,
+// thrift.REPLY, result) from SendReply). Anything else is returned unchanged.
+func argThrough(anchor *ssa.Function, v ssa.Value) ssa.Value {
+	sv := ssax.Strip(v)
+	q, ok := sv.(*ssa.Parameter)
+	if !ok || q.Parent() == anchor {
+		return v
+	}
+	g := q.Parent()
+	idx := -1
+	for i, gp := range g.Params {
+		if gp == q {
+			idx = i
+		}
+	}
+	var found ssa.Value
+	n := 0
+	// the anchor's own call first (its error path may reach the same helper with other arguments)
+	for _, scope := range [][]*ssa.Function{{anchor}, localCone(anchor, 2)} {
+		found, n = nil, 0
+		for _, f := range scope {
+			for _, c := range ssax.Calls(f) {
+				if c.Static == g && idx >= 0 && idx < len(c.Common.Args) {
+					found = c.Common.Args[idx]
+					n++
+				}
+			}
+		}
+		if n == 1 {
+			break
+		}
+	}
+	if n != 1 {
+		return v
+	}
+	return argThrough(anchor, found)
 }
